@@ -56,6 +56,9 @@ type Term struct {
 	// lin: canonical linear form of an integer term built by Add/Sub/Mul-by-
 	// constant (so that (x+32+k)-(x+32) is k, syntactically)
 	lin *linForm
+	// iteArgs: (c, a, b) of an integer (ite c a b) with literal branches, so that
+	// (= (ite c 1 0) 1) folds to c (subtle.ConstantTimeCompare(...) == 1)
+	iteArgs []*Term
 }
 
 type linAtom struct {
@@ -361,6 +364,20 @@ func Eq(a, b *Term) *Term {
 	if a.S == b.S {
 		return TTrue
 	}
+	if b.iteArgs != nil && a.IsInt {
+		a, b = b, a
+	}
+	if a.iteArgs != nil && b.IsInt {
+		x, y := a.iteArgs[1].I.Cmp(b.I) == 0, a.iteArgs[2].I.Cmp(b.I) == 0
+		switch {
+		case x && !y:
+			return a.iteArgs[0]
+		case !x && y:
+			return Not(a.iteArgs[0])
+		case !x && !y:
+			return TFalse
+		}
+	}
 	if a.Sort == SBool {
 		if a.IsBool {
 			if a.B {
@@ -499,6 +516,9 @@ func Ite(c, a, b *Term) *Term {
 		return MkArr(func(i *Term) *Term { return Ite(c, Select(a, i), Select(b, i)) })
 	}
 	r := app(a.Sort, "ite", c, a, b)
+	if a.Sort == SInt && a.IsInt && b.IsInt {
+		r.iteArgs = []*Term{c, a, b}
+	}
 	if a.Sort == SInt {
 		al, ah := bounds(a)
 		bl, bh := bounds(b)
